@@ -35,6 +35,9 @@ func TestVXReplay(t *testing.T) {
 	if err := json.Unmarshal(b, &jobs); err != nil {
 		t.Fatal(err)
 	}
+	// no garbage collection during a replay: sync.Pool contents (and with them the aliasing a counterexample relies
+	// on) survive exactly as in a busy process between two collections; TotalAlloc-based measurements do not need it
+	debug.SetGCPercent(-1)
 	for _, j := range jobs {
 		res := vxResult{ID: j.ID}
 		h, ok := vxHarnesses[j.Harness]
